@@ -162,6 +162,47 @@ def main(tier, seed):
         open(p, "w").write(text)
         return p
 
+    # ---- schemas/py_renum.exp: forty selects whose lists name a renamed enumeration or a renamed select, under names that
+    # spread over the dictionary's hash order: one module, importable, every select with the members the schema declares
+    rexp = os.path.join(VERIF, "schemas", "py_renum.exp")
+    rtxt = open(rexp).read()
+    rdir = os.path.join(wroot, "renum")
+    os.makedirs(rdir)
+    rcr, orr, err_ = sh([os.path.join(bdir, "bin", "exp2python"), rexp], cwd=rdir, timeout=120)
+    evals += 1
+    rmods = sorted(os.path.basename(m) for m in glob.glob(os.path.join(rdir, "*.py")))
+    rbad = None
+    hist["renamed_in_select"] = 0
+    if rcr != 0:
+        rbad = "exp2python exits with status %d on schemas/py_renum.exp: %s" % (rcr, (orr + err_)[-200:])
+    elif rmods != ["py_renum.py"]:
+        rbad = "schemas/py_renum.exp: expected exactly one module py_renum.py, found %s" % rmods
+    else:
+        rc2, jo, je = sh(insp + [rdir, "py_renum"], timeout=120, env={"VERIF_REPO": REPO})
+        try:
+            rinfo = json.loads(jo)
+        except ValueError:
+            rinfo = None
+            rbad = "inspector failed on the module of schemas/py_renum.exp: %s" % (jo + je)[-300:]
+        if rinfo is not None and rinfo["import_error"]:
+            rbad = "the module of schemas/py_renum.exp cannot be imported: %s" % rinfo["import_error"][:200]
+        elif rinfo is not None:
+            renamed = dict(re.findall(r"^TYPE (\w+) = (e1|base_sel);", rtxt, re.M))
+            for (sn, mem) in re.findall(r"^TYPE (\w+) = SELECT \(a, (\w+)\);", rtxt, re.M):
+                d = rinfo["types"].get(sn)
+                hist["renamed_in_select"] += 1
+                if not d or d.get("kind") != "select" or d.get("members") != ["a", mem]:
+                    rbad = rbad or "select %s of schemas/py_renum.exp: module has %s, schema has members ['a', '%s']" % (sn, d, mem)
+            for (tn, tgt) in renamed.items():
+                d = rinfo["types"].get(tn)
+                if tgt == "e1" and (not d or d.get("kind") != "enum" or d.get("items") != ["up", "down"]):
+                    rbad = rbad or "renamed enumeration %s of schemas/py_renum.exp: module has %s" % (tn, d)
+                if tgt == "base_sel" and (not d or d.get("kind") != "select" or d.get("members") != ["a", "e1"]):
+                    rbad = rbad or "renamed select %s of schemas/py_renum.exp: module has %s" % (tn, d)
+    if rbad:
+        oracle_fail += 1
+        res.violation(rbad, {"input_file": rexp, "replay": "exp2python schemas/py_renum.exp; python3 harness/py_mod_inspect.py <dir> py_renum"})
+
     for k in range(nsch):
         r = rng(seed, "c18/%d" % k)
         kw = (k % 4 == 1)
